@@ -524,6 +524,34 @@ def h_symbols(eng, target, case, fmt="elf"):
                   "C13 a label from InsertionContext.temporary_label() did not receive the caller's suffix: %s / %s" % (n1, n2))
         e2 = list(r2.text_section.symbolic_expressions.values())
         eng.check(len(e2) == 1 and e2[0].symbol in r2.symbols, "C13 the second copy's branch captured another copy's label")
+    elif case == "several_contexts":
+        # the caller that hands out the suffixes is RewritingContext: the same patch inserted by several contexts (several
+        # passes over one module) must not produce two symbols with one name, nor may a copy capture another copy's label
+        from gtirb_rewriting import Constraints, InsertionContext, Patch, RewritingContext
+        blk = msyms["func"].referent
+
+        def body(ictx):
+            name = ictx.temporary_label("skip")
+            return render([tok("o"), tok("jcc", name), tok("o2"), tok("label", name), tok("o")], target)
+        patch = Patch.from_function(body, Constraints(x86_syntax=xs))
+        rounds = eng.choose("contexts", [2, 3])
+        for _ in range(rounds):
+            ctx = RewritingContext(m, [])
+            ctx.insert_at(sorted(m.code_blocks, key=lambda b: b.address)[0], 0, patch)
+            ctx.insert_at(sorted(m.code_blocks, key=lambda b: b.address)[0], 0, patch)
+            ctx.apply()
+        names = sorted(s.name for s in m.symbols)
+        dup = sorted({n for n in names if names.count(n) > 1})
+        eng.check(not dup, "C13 the same patch inserted by %d contexts left several symbols with one name: %s" % (rounds, dup))
+        temps = [s for s in m.symbols if "skip" in s.name]
+        eng.check(len(temps) == 2 * rounds, "C13 %d copies of the patch left %d temporary labels" % (2 * rounds, len(temps)))
+        used = {}
+        for bi_ in m.byte_intervals:
+            for off_, e in bi_.symbolic_expressions.items():
+                if "skip" in e.symbol.name:
+                    used[e.symbol.name] = used.get(e.symbol.name, 0) + 1
+        eng.check(len(used) == 2 * rounds and all(v == 1 for v in used.values()),
+                  "C13 the branches of the copies do not each name their own label: %r" % (used,))
     elif case == "reuse_after_finalize":
         # an Assembler may be used again after finalize(): the second round starts from a clean state, i.e. it behaves like a
         # fresh Assembler, and the result already handed out is not touched
@@ -710,11 +738,15 @@ def make_check_C13(tier):
                     continue
                 chk.add("chunks/%s/%s/cut%d" % (target, pname, cut), h_assemble,
                         params=dict(target=target, prog=prog, pie=True, trivially_unreachable=False, split_at=cut), timeout=900)
+    for target, fmt in (("x64-att", "elf"), ("x64-att", "pe"), ("arm64", "elf")):
+        chk.add("symbols/%s-%s/several_contexts" % (target, fmt), h_symbols,
+                params=dict(target=target, case="several_contexts", fmt=fmt), timeout=900)
     for target, fmt in (("x64-intel", "elf"), ("x64-att", "pe"), ("ia32", "pe"), ("arm64", "elf"), ("mips32", "elf")):
         chk.add("symbols/%s-%s/context_temp_label" % (target, fmt), h_symbols,
                 params=dict(target=target, case="context_temp_label", fmt=fmt), timeout=900)
     chk.bounds = {
         "temporary prefix": "InsertionContext.temporary_label() names on x86-64 ELF, x86-64 PE, IA32 PE, ARM64 ELF, MIPS32 ELF, two copies each",
+        "several contexts": "one patch with an InsertionContext.temporary_label() label inserted twice by each of 2-3 RewritingContexts",
         "assembler reuse": "assemble/finalize twice on one Assembler object compared with a fresh Assembler",
         "cases": "unknown name refused / allowed (one proxy-backed symbol per name); module names bind to the module's symbol objects "
                  "(code, data, proxy, a temporary-looking module name); redefinition of a module name, of a temporary-looking module "
